@@ -2,6 +2,7 @@ package funcGen
 
 import (
 	"bytes"
+	"errors"
 	"fmt"
 	"github.com/hneemann/parser2"
 	"github.com/hneemann/parser2/listMap"
@@ -1394,7 +1395,21 @@ func (g *FunctionGenerator[V]) genCodeMap(a listMap.ListMap[parser2.AST], gc Gen
 	return
 }
 
+// staticFunctionDocuError marks an error which already lists the available functions
+type staticFunctionDocuError struct {
+	error
+}
+
+func (e staticFunctionDocuError) Unwrap() error {
+	return e.error
+}
+
 func (g *FunctionGenerator[V]) generateStaticFunctionDocu(err error) error {
+	// in nested calls like f()()() the list is added only once, not at every level
+	var listed staticFunctionDocuError
+	if errors.As(err, &listed) {
+		return err
+	}
 	type sf struct {
 		name string
 		f    Function[V]
@@ -1412,7 +1427,7 @@ func (g *FunctionGenerator[V]) generateStaticFunctionDocu(err error) error {
 		b.WriteRune('\n')
 		f.f.Description.WriteTo(&b, f.name)
 	}
-	return fmt.Errorf("%w\n\nAvailable functions are:%s", err, b.String())
+	return staticFunctionDocuError{fmt.Errorf("%w\n\nAvailable functions are:%s", err, b.String())}
 }
 
 func (g *FunctionGenerator[V]) GetStaticDocumentation() TypeDocumentation {
